@@ -127,6 +127,16 @@ SCENARIOS = {
         "counts": ["C13", "C01"],
         "assumptions": ["each atomic cell is sequentially consistent in the model (Relaxed orderings beyond per-operation atomicity are not modelled)"],
     },
+    "C14": {
+        "modules": ["C14", "Unconditional"],
+        "theorems": ["C14_any_memory", "C14_insert_terminates", "C14_makeT_fuel", "C14_resplit_makes_node", "C14_livelock_before_fix",
+                     "C14_build_fuel_forest", "C14_reify_total", "C14_deleteTree_total"],
+        "quick": [hist("c14", 60, extra=T1, timeout=900)],
+        "thorough": [hist("c14", 600, "thorough", extra=T1, timeout=3400), hist("c14", 100, "thorough", timeout=3400)],
+        "counts": ["C14", "C01", "C02"],
+        "assumptions": ["termination of the re-split loop is probabilistic in the real code (a random split may keep all items on one side); "
+                        "proved: progress when the batch exceeds the capacity, the livelock fixed point otherwise; observed: poll-limit hang detection"],
+    },
     "C15": {
         "modules": ["C15", "C15Build", "Unconditional"],
         "theorems": ["C15_capacity_all_histories", "C15_root_count", "C15_single", "C15_capacity", "C15_requested", "C15_auto", "C15_auto_cases", "C15_cap"],
@@ -148,6 +158,15 @@ SCENARIOS = {
         "thorough": [hist("c18", 980, "thorough", extra=T1)],
         "counts": ["C18", "C01", "C02"],
     },
+    "C20": {
+        "modules": ["C20", "Unconditional"],
+        "theorems": ["C20_side_total", "C20_sideSplit_total", "C20_search_total", "C20_search_wellformed", "C20_order_total",
+                     "C20_readback_any_bits", "C20_empty_side_random", "C20_build_fuel"],
+        "quick": [hist("c20", 84, extra=T1, timeout=1500)],
+        "thorough": [hist("c20", 420, "thorough", extra=T1, timeout=3400), hist("c20", 84, "thorough", timeout=3400)],
+        "counts": ["C20", "C01", "C03", "C05"],
+        "assumptions": ["bounded build time on degenerate data is observed (poll limit), termination of the re-split loop being probabilistic"],
+    },
     "C19": {
         "theorems": ["C19_dim_add", "C19_dim_append", "C19_dim_query", "C19_append", "C19_del_absent", "C19_needBuild_unchanged"],
         "quick": [hist("c19", 60, extra=T1)],
@@ -155,7 +174,9 @@ SCENARIOS = {
         "counts": ["C19"],
     },
     "C16": {
-        "theorems": ["C16_layout", "C16_key_len", "C16_key_order", "C16_key_roundtrip", "C16_key_inj",
+        "modules": ["C16", "C16Codec"],
+        "theorems": ["C16_roaring_roundtrip", "C16_val_roundtrip", "C16_node_roundtrip", "C16_meta_roundtrip", "C16_vec_roundtrip",
+                     "C16_roaring_size", "C16_roaring_offsets", "C16_layout", "C16_key_len", "C16_key_order", "C16_key_roundtrip", "C16_key_inj",
                      "C16_nodeid_roundtrip", "C16_version_roundtrip"],
         "quick": [{"name": "keys", "args": ["keys", "--seed", "{seed}"]}, hist("c16", 25, extra=["--threads", "1"])] + FIXTURES,
         "thorough": [{"name": "keys", "args": ["keys", "--seed", "{seed}", "--tier", "thorough"]}, hist("c16", 300, "thorough", extra=["--threads", "1"])] + FIXTURES,
